@@ -149,6 +149,10 @@ def gen_plan(rng, index, tier):
     if behind and not coupling and rng.random() < 0.4:
         c = rng.randrange(n)
         steps.append(_mk_step(0, rng.choice(behind)["name"], ("EveryNode", c, rng.randrange(bs + 1), None), "dupwrite"))
+    if rng.random() < 0.3:
+        # a labelled snapshot written by an interface (before the node's own snapshot exists), twice
+        val += 1
+        steps.append(_mk_step(0, rng.choice(actors)["name"], rng.choice([p for p in pts if p[0] in ("EveryNode", "BOC", "EOC")] or pts), "dupmark", u=val))
     for _ in range(rng.choice([0, 0, 1, 2])):
         # a reader peeking at the shared copy in the working directory in the middle of the run
         steps.append(_mk_step(0, rng.choice(actors)["name"], rng.choice(pts), "peek", load=rng.random() < 0.6))
@@ -389,6 +393,38 @@ def op_dupwrite(d, st, actor):
         )
     # put the sentinel back so that the log stays the single source of truth
     r.core.p.vSent = d.last_core_sent
+    return None
+
+
+def op_dupmark(d, st, actor):
+    """A labelled snapshot is written (acknowledged, so it belongs to the file from now on) and then
+    written a second time: the second write is refused and the first stays what it was."""
+    o = actor.o
+    dbi = o.getInterface("database")
+    db = dbi._db if dbi is not None else None
+    if db is None or not db.isOpen():
+        return None
+    r = o.r
+    label = f"mark{st['u']}"
+    name = f"c{int(r.p.cycle):02d}n{int(r.p.timeNode):02d}{label}"
+    if name in db.h5db:
+        return None
+    db.writeToDB(r, label)
+    before = enginea.h5_group_hash(db.h5db[name])
+    d.suppress_ack = True
+    try:
+        try:
+            db.writeToDB(r, label)
+        except Exception:  # noqa: BLE001 - the refusal
+            refused = True
+        else:
+            refused = False
+    finally:
+        d.suppress_ack = False
+    present = name in db.h5db
+    if not refused or not present or enginea.h5_group_hash(db.h5db[name]) != before:
+        raise OracleFailure("C06.overwrite", f"second write of the labelled snapshot {name} was {'accepted' if not refused else 'refused'}; the first one is {'gone' if not present else 'still there'}", {"refused": refused, "present": present, "what": "labelled"})
+    d.probes["duplicate_labelled_write_refused"] += 1
     return None
 
 
@@ -664,6 +700,14 @@ def check_history(path, log_entries, cs, nobj, pick, probes):
         for _ in range(nobj):
             comps.append(blks[k % len(blks)])
             k = k * 5 + 1
+        # core positions whose indices a discharged assembly carries in the pool's own grid
+        sfp = r.excore.get("sfp") if hasattr(r, "excore") else None
+        if sfp is not None and len(sfp):
+            taken = {tuple(int(x) for x in a.spatialLocator.getCompleteIndices()[:2]) for a in sfp if a.spatialLocator is not None and a.spatialLocator.grid is not None}
+            for a in asms:
+                if tuple(int(x) for x in a.spatialLocator.getCompleteIndices()[:2]) in taken and len(a):
+                    comps.append(a[len(a) // 2])
+                    probes["history_at_core_position_shared_with_a_pool_position"] += 1
         comps = list({id(x): x for x in comps}.values())
         # -- by identity, all steps
         hist = db.getHistories(comps, ["vSent"])
@@ -894,7 +938,7 @@ def diskfull_run(plan, cfg, cs, o, d, scratch, title, log, clock, simos):
 def execute(plan):
     cfg = plan["config"]
     log, scratch, clock, simos, d = enginea.new_run(plan)
-    d.ops.update({"set": op_set, "dupwrite": op_dupwrite, "_before_abort": before_abort, "peek": op_peek, "dbihist": op_dbihist, "htquery": op_htquery, "enospc": op_enospc})
+    d.ops.update({"set": op_set, "dupwrite": op_dupwrite, "_before_abort": before_abort, "peek": op_peek, "dbihist": op_dbihist, "htquery": op_htquery, "dupmark": op_dupmark, "enospc": op_enospc})
     d.hsteps = {}
     d.scratch = scratch
     d.synced_upto = {}
